@@ -145,7 +145,7 @@ private:
 
     bool tracing_;
 
-    void checkExpectationsOfLastActualCall();
+    bool checkExpectationsOfLastActualCall();
     bool wasLastActualCallFulfilled();
     void failTestWithExpectedCallsNotFulfilled();
     void failTestWithOutOfOrderCalls();
